@@ -10,6 +10,7 @@ import bct
 from bctmc import louvain as lv
 from bctmc import smallscope as ss
 from bctmc import oracles as orc
+from bctmc import named
 from bctmc.runner import guarded
 from bctmc.tally import Tally
 
@@ -18,7 +19,7 @@ RULE = ('randomised detectors: every labelled 4-node graph with positive weight 
         'signed patterns (also with self-connections of either sign), a few named 5-6 node graphs; gamma in {1, 1.25}; every built-in objective / qtype; initial '
         'partition none or one of a fixed subset of the 15 set partitions (all 15 in thorough); hierarchy in {False, True}; '
         'ALL visiting orders at every sweep; deterministic modularity_und/_dir/_und_sign: every graph n<=4 (5 thorough) / '
-        'digraph n<=3 (4 thorough) x kci in {None, every set partition} x gamma; non-trivial = configuration with >= 2 '
+        'digraph n<=3 (4 thorough) x kci in {None, every set partition} x gamma, and the structured 7-10 node family of bctmc/named.py x 4 partitions; non-trivial = configuration with >= 2 '
         'distinct reachable (partition, q) outcomes, or (deterministic) a graph with >= 2 components of the answer')
 ASSUMPTIONS = ['reference modularity computed from the definition in bctmc/louvain.py (double loop)',
                'state merging as in C01; probtune p represented by one point on each side of p',
@@ -149,6 +150,9 @@ def plan(ctx):
     tot = ss.und_count(4, (-1, 0, 1))
     for (a, b) in ss.ranges(tot, 16):
         units.append(('det_sign', 4, a, b))
+    for tag in ('bin_und', 'bin_dir', 'len_und'):
+        for (a, b) in ss.ranges(len(named.family(tag)), 12):
+            units.append(('det_named', tag, a, b))
     return units
 
 
@@ -201,8 +205,12 @@ def det_case(t, fname, W, kw, case, qref):
         t.viol(fname, 'raises', case, observed=out)
         return
     ci, q = out
-    why = lv.valid_partition(ci, len(W))
     given = kw.get('kci', kw.get('ci'))
+    # with a partition supplied the routines only evaluate it and hand the caller's labels back: the 1..k clause
+    # applies to detected partitions
+    why = lv.valid_partition(ci, len(W)) if given is None else None
+    if given is not None and np.asarray(ci).shape != (len(W),):
+        why = 'shape'
     if why:
         t.viol(fname, 'labels_form_1_to_k', case, observed=ci, expected=why)
         return
@@ -221,6 +229,22 @@ def work(unit):
             t.merge(lv.explore_config(PROPERTY, cfg, judge, max_executions=2000000 if THOROUGH[0] else 200000))
         return t
     kind, n, a, b = unit
+    if kind == 'det_named':
+        fam = named.family(n)
+        fname = 'modularity_dir' if n == 'bin_dir' else 'modularity_und'
+        for idx in range(a, b):
+            label, W = fam[idx]
+            m = len(W)
+            if W.sum() == 0:
+                continue
+            kcis = [None, [1 + (v % 2) for v in range(m)], [1 + (v * 3) // m for v in range(m)],
+                    [10 * (1 + v // 2) for v in range(m)]]
+            for g in GAMMAS:
+                for kci in kcis:
+                    case = {'family': 'det_named:' + n, 'index': idx, 'graph': label, 'W': W, 'kci': kci, 'gamma': g}
+                    det_case(t, fname, W, {'gamma': g, 'kci': kci}, case, lambda c, W=W, g=g: lv.q_dir(W, c, g))
+            t.c['nontrivial'] += 1
+        return t
     parts = ss.set_partitions(n)
     for idx in range(a, b):
         if kind == 'det_sign':
@@ -260,6 +284,10 @@ def replay(rec):
         return lv.replay_case(PROPERTY, rec, judge)
     t = Tally(PROPERTY)
     W = np.array(case['W'], dtype=float)
+    if case['family'].startswith('det_named'):
+        fname = 'modularity_dir' if case['family'].endswith('bin_dir') else 'modularity_und'
+        det_case(t, fname, W, {'gamma': case['gamma'], 'kci': case['kci']}, case, lambda c: lv.q_dir(W, c, case['gamma']))
+        return t
     if case['family'] == 'det_sign':
         det_case(t, 'modularity_und_sign', W, {'ci': case['ci'], 'qtype': case['qtype']}, case,
                  lambda c: lv.q_signed(W, c, 1.0, case['qtype']))
